@@ -121,6 +121,102 @@ def api_search(ctx, n):
     return ev, viol
 
 
+def _rot_towards(u, delta, rng):
+    """unit vector at angle `delta` from the unit vector u (random plane)"""
+    w = rng.randn(len(u))
+    w -= np.dot(w, u) * u
+    n = np.linalg.norm(w)
+    if n < 1e-9:
+        return u.copy()
+    w /= n
+    return np.cos(delta) * u + np.sin(delta) * w
+
+
+def strata_search(ctx, n):
+    """targeted strata of the public API against pair enumeration:
+    (A) several directions whose *undirected* cones overlap or nearly touch, with random signs (obtuse pairs included) —
+        exercises _separate_dirs_test together with the kernel's first-hit rule;
+    (B) stacks of masked fields with DIFFERENT masks and finite data under the mask (+ optional mask=) —
+        exercises the masked -> NaN preprocessing that the kernel's NaN rule relies on"""
+    import gstools as gs
+    rng = np.random.RandomState(ctx.seed + 808)
+    viol, ev = [], 0
+    for t in range(n):
+        dim = int(rng.randint(2, 4))
+        P = int(rng.randint(10, 22))
+        pos = rng.randn(dim, P) * 2 if rng.rand() < 0.7 else rng.randint(0, 5, size=(dim, P)).astype(float)
+        est = str(rng.choice(["matheron", "cressie"]))
+        e = est[0]
+        bins = np.concatenate([[float(rng.choice([0.25, 0.5]))], np.cumsum(rng.choice([1.0, 1.5, 2.5], size=int(rng.randint(2, 5)))) + 0.5])
+        if t % 2 == 0:   # ---- (A)
+            tol = float(rng.choice([np.pi / 8, np.pi / 6, 0.2, np.pi / 4]))
+            D = int(rng.randint(2, 4))
+            u = rng.randn(dim); u /= np.linalg.norm(u)
+            dirs = [u]
+            for _ in range(D - 1):
+                delta = float(rng.choice([0.5, 1.0, 1.6, 1.95, 2.05, 2.6])) * tol   # around the 2*tol separation threshold
+                v = _rot_towards(u, delta, rng)
+                dirs.append(v * float(rng.choice([1.0, -1.0])))
+            d = np.array(dirs) * rng.choice([1.0, 2.0, 0.5], size=(D, 1))        # not normalised on purpose
+            d = d[rng.permutation(D)]
+            f = rng.randint(-8, 9, size=(1, P)) / 4.0
+            bw = None if rng.rand() < 0.7 else 2.0
+            case = dict(stratum="overlapping-cones", pos=pos.tolist(), field=f.tolist(), bins=bins.tolist(), estimator=est,
+                        direction=d.tolist(), angles_tol=tol, bandwidth=bw)
+            try:
+                _, g, c = gs.vario_estimate(pos, f[0], bins, estimator=est, direction=d, angles_tol=tol, bandwidth=bw, return_counts=True)
+                dn = d / np.linalg.norm(d, axis=1)[:, None]
+                g, c = np.atleast_2d(g), np.atleast_2d(c)
+                rg, rc = brute.directional(f, bins, pos, dn, tol, -1.0 if bw is None else bw, e)
+                ev += 1
+                if not (close(g, rg) and np.array_equal(c, rc)):
+                    zg, zc = brute.directional(f, bins, pos, dn, tol, -1.0 if bw is None else bw, e, zero_first_only=True)
+                    if close(g, zg) and np.array_equal(c, zc):
+                        viol.append({"key": "api:directional:zero-length-pairs-first-direction-only",
+                                     "what": "zero-length pairs credited to the first separated direction only", "case": case})
+                    else:
+                        viol.append({"key": "api:directional:overlapping-cones",
+                                     "what": "directional vario_estimate with overlapping / nearly touching direction cones differs from pair enumeration",
+                                     "case": case, "got": [g.tolist(), c.tolist()], "want": [rg.tolist(), rc.tolist()]})
+            except Exception as ex:
+                viol.append({"key": "api:directional:exception", "what": f"{type(ex).__name__}: {ex}", "case": case})
+        else:            # ---- (B)
+            F = int(rng.randint(2, 4))
+            data = rng.randint(-8, 9, size=(F, P)) / 4.0
+            msk = rng.rand(F, P) < 0.3
+            if rng.rand() < 0.5:
+                msk[:, int(rng.randint(P))] = True      # a point masked in every field (dropped by `select`)
+            data_under = data.copy()
+            data_under[msk] = float(rng.choice([-9999.0, 100.0, 0.0]))   # finite junk under the mask
+            fm = np.ma.array(data_under, mask=msk)
+            extra = (rng.rand(P) < 0.15) if rng.rand() < 0.4 else None
+            ref = data.copy(); ref[msk] = np.nan
+            if extra is not None:
+                ref[:, extra] = np.nan
+            mode = str(rng.choice(["iso", "dir"]))
+            case = dict(stratum="masked-stack", pos=pos.tolist(), data=data_under.tolist(), masks=msk.tolist(),
+                        mask_arg=None if extra is None else extra.tolist(), bins=bins.tolist(), estimator=est, mode=mode)
+            try:
+                kw = {} if extra is None else {"mask": extra}
+                if mode == "iso":
+                    _, g, c = gs.vario_estimate(pos, fm, bins, estimator=est, return_counts=True, **kw)
+                    rg, rc = brute.unstructured(ref, bins, pos, e, "e")
+                else:
+                    d = np.eye(dim)[:2]
+                    _, g, c = gs.vario_estimate(pos, fm, bins, estimator=est, direction=d, angles_tol=np.pi / 8, return_counts=True, **kw)
+                    rg, rc = brute.directional(ref, bins, pos, d, np.pi / 8, -1.0, e)
+                    g, c = np.atleast_2d(g), np.atleast_2d(c)
+                ev += 1
+                if not (close(g, rg) and np.array_equal(c, rc)):
+                    viol.append({"key": "api:masked-stack", "what": "vario_estimate on a stack of masked fields with different masks differs from pair enumeration over unmasked values",
+                                 "case": case, "got": [np.asarray(g).tolist(), np.asarray(c).tolist()], "want": [rg.tolist(), rc.tolist()]})
+                if not np.array_equal(np.ma.getmaskarray(fm), msk) or not np.array_equal(np.ma.getdata(fm), data_under):
+                    viol.append({"key": "api:masked-stack:caller-array-modified", "what": "the caller's masked array was changed", "case": case})
+            except Exception as ex:
+                viol.append({"key": "api:masked-stack:exception", "what": f"{type(ex).__name__}: {ex}", "case": case})
+    return ev, viol
+
+
 def model_search(ctx, n):
     """the generated Lean definitions (current .pyx source) against definitional enumeration"""
     rng = np.random.RandomState(ctx.seed + 77)
@@ -183,7 +279,9 @@ def search(ctx, deep=False):
     n = ctx.scale(60, 600) * (3 if deep else 1)
     ev0, v0 = directed(ctx)
     ev1, v1 = api_search(ctx, n)
-    ev1, v1 = ev0 + ev1, v0 + v1
+    ev3, v3 = strata_search(ctx, max(24, n // 2))
+    ev1, v1 = ev0 + ev1 + ev3, v0 + v3 + v1
     ev2, v2 = model_search(ctx, max(10, n // 4))
     return {"evaluations": ev1 + ev2, "violations": (v1 + v2)[:8],
-            "summary": f"{ev1} calls of vario_estimate / vario_estimate_axis and {ev2} runs of the Lean translation of estimator.pyx against brute-force pair enumeration"}
+            "summary": f"{ev1} calls of vario_estimate / vario_estimate_axis (incl. {ev3} in the targeted strata: overlapping direction cones with random signs, "
+                       f"stacks of masked fields with different masks) and {ev2} runs of the Lean translation of estimator.pyx against brute-force pair enumeration"}
